@@ -45,10 +45,25 @@ def odd_datagrams(rng, proto):
     return out
 
 
+def mixed(proto, buf, k):
+    """a data datagram that also carries a set of a template the exporter has not announced: its records are decoded and
+    published all the same, and an error is reported"""
+    extra = u16(900 + k % 50) + u16(8) + [k % 256, 1, 2, 3]
+    if proto == "ipfix":
+        b = list(buf) + extra
+        b[2:4] = u16(len(b))
+        return b
+    b = list(buf) + extra
+    b[15] = (b[15] + 1 + k) % 256          # another sequence number: messages are told apart by their payload
+    return b
+
+
 def make_classes_job(ctx, proto, workers, seed):
     job = c12.make_job(ctx, proto, workers, seed, 18)
     exps = flowjobs.exporters(seed)
     extra = [{"exp": exps[i % 3], "buf": m} for i, m in enumerate(odd_datagrams(ctx.rng, proto))]
+    if proto in ("ipfix", "netflow9"):
+        extra += [{"exp": dg["exp"], "buf": mixed(proto, dg["buf"], i)} for i, dg in enumerate(job["data"]) if i % 4 == 1 and len(dg["buf"]) < 1400]
     data = job["data"] + extra
     ctx.rng.shuffle(data)
     job["data"] = data
@@ -101,6 +116,14 @@ def check(ctx):
             ctx.violation("%s pipeline (%d workers): DecodedCount is %d after %d template and %d other datagrams of which %d decode without "
                           "error and %d with an error" % (proto, job["workers"], r["decoded_count"], ntpl, len(cl), cl.count("ok"), cl.count("err")),
                           case, key=proto + ":decoded-count")
+        # "exactly one whenever it yields at least one record or sample and the outgoing queue is not full" (it never is here)
+        normp = (lambda b: re.sub(rb'"ColTime":\d+', b'"ColTime":0', b)) if proto == "sflow" else (lambda b: b)
+        pubs = {normp(base64.b64decode(p)) for p in (r.get("payloads") or [])}
+        lost = [i for i, x in enumerate(r["expected"]) if x and normp(base64.b64decode(x)) not in pubs]
+        if lost:
+            ctx.violation("%s pipeline (%d workers): %d of %d datagrams that yield records on their own were never published (the first is "
+                          "datagram %d, class '%s'; the outgoing queue was never full)" % (proto, job["workers"], len(lost), sum(1 for x in r["expected"] if x), lost[0] + 1, cl[lost[0]]),
+                          dict(case, datagram=job["data"][lost[0]] if lost[0] < len(job["data"]) else None), key=proto + ":never-published")
         rows.append({"ev": "Reset"})
         index.append((job, None))
         for k, e in enumerate(r["events"]):
@@ -277,6 +300,7 @@ def end_to_end(ctx, thorough):
                     t, dd = gen_flow.session(ctx.rng, gp, ntpl=3, ndata=10 if thorough else 5)
                     tpls += [(src, m) for m in t]
                     data += [(src, m) for m in dd]
+                data += [(s0, mixed(proto, m, i)) for i, (s0, m) in enumerate(list(data)) if i % 4 == 1 and len(m) < 1400]
                 data += [(srcs[i % 3], m) for i, m in enumerate(odd_datagrams(ctx.rng, proto))]
             else:
                 data = [(srcs[i % 4], x["buf"]) for i, x in enumerate(job["data"])]
